@@ -27,6 +27,12 @@ static const char *relax_names[] = { "gauss_seidel", "ilu0", "iluk", "ilup", "il
 static const char *solver_names[] = { "cg", "bicgstab", "bicgstabl", "gmres", "lgmres", "fgmres", "idrs", "richardson" };
 static bool has_pside(long s) { return s == 1 || s == 2 || s == 3 || s == 4; }
 
+static __attribute__((noinline)) void dirty_stack_small(int fill) {
+    volatile unsigned char buf[96 * 1024];
+    for (size_t i = 0; i < sizeof buf; i += 1) buf[i] = (unsigned char)fill;
+    asm volatile("" ::: "memory");
+}
+
 Plan generate(uint64_t seed, uint64_t run, bool thorough) {
     sim::rng r(seed, "world", run);
     Plan p;
@@ -238,7 +244,7 @@ Result execute(const Plan &p) {
     sim::RunStatus st = world(nt, p.sched, [&]() {
         if (!nested) { body(); return; }
         #pragma omp parallel
-        { if (omp_get_thread_num() == omp_get_num_threads() - 1) body(); }
+        { if (omp_get_thread_num() == omp_get_num_threads() - 1) { dirty_stack_small(0x7f); body(); } }      // stale stack content: huge finite doubles
     });
     res.absorb(st); res.deviations = st.deviations;
     if (st.status) res.fail(sig("world-terminates", "deadlock-or-budget", st.blocked));
